@@ -912,7 +912,8 @@ def evaluate(ctx: Ctx, cases: list[dict], tie: bool = True) -> None:
             ks = [(r["kind"], r["code"]) for r in a["reqs"]]
             if ("jsonBody", 200) in ks and ("jsonStatus", 422) in ks and b["outcome"].get("remaining") is None \
                     and a["final_raw"] is not None and b["final_raw"] is not None and all(r["code"] == 200 and not r["slip"] for r in b["reqs"]) \
-                    and case.get("carrier", "event") == "daemon":
+                    and case.get("carrier", "event") == "daemon" \
+                    and all((not r["slip"]) or r["slip"][0] == "edit" for r in a["reqs"]):
                 fa, fb = _fins(a["final_raw"]), _fins(b["final_raw"])
                 ctx.count("reapplied_after_status_conflict",
                           "same list" if fa == fb else "order changed" if sorted(fa) == sorted(fb) else "membership changed")
